@@ -25,6 +25,8 @@ def _gen(world, key):
         cls = None
         if world.contracts[key].executor == "template":
             from .templates import TemplateExecutor as cls
+        if world.contracts[key].executor == "numbers":
+            from .numbers import NumExecutor as cls
         rep = verify_function(world, key, executor_cls=cls) if cls else verify_function(world, key)
     obs = []
     seen = set()
